@@ -68,5 +68,7 @@ let rec nlist_eq a b = match a, b with
   | _ -> false
 
 let handlers : (string, int -> string -> string list -> unit) Hashtbl.t = Hashtbl.create 64
-let register k f = Hashtbl.replace handlers k f
+let register k f =
+  if Hashtbl.mem handlers k then failwith ("validator: record kind registered twice: " ^ k);
+  Hashtbl.replace handlers k f
 
